@@ -267,6 +267,11 @@ fn cases(spec: &Spec, ty: &Value, obj_mode: bool) -> Vec<Case> {
                 s("string-control-char", b"a\x01b", if strict { Verdict::Reject } else { Verdict::Accept }),
                 s("string-newline", b"a\nb", if strict { Verdict::Reject } else { Verdict::Accept }),
                 s("string-del-and-high", b"\x7f\x80\xff", Verdict::Accept),
+                // blanks are ordinary characters (>= 32): leading, trailing, nothing but blanks
+                s("string-leading-blank", b" abc", Verdict::Accept),
+                s("string-trailing-blank", b"abc  ", Verdict::Accept),
+                s("string-only-blanks", b"   ", Verdict::Accept),
+                s("string-tab-like-printables", b"\x20\x21\x7e", Verdict::Accept),
                 raw_case("string-unterminated", b"abc".to_vec(), Verdict::Reject),
             ]
         }
